@@ -130,6 +130,11 @@ def compare(case, impl, model, spec, estage):
                 if E.get("clean") != "1":
                     corr.append("real callback sequence is outside the shape assumed by listener_no_panic (clean=0)")
     if kind == "Q":
+        # ast.Parse itself (res) must reject every text the reference recogniser rejects; the only
+        # exception is the empty filter, which ast.Parse documents as "match everything" before the
+        # grammar is consulted (ast/helper.go)
+        if S.get("acc") == "0" and A.get("res") != "syn" and case.split(" ")[-1] != "-":
+            prop.append(f"ast.Parse accepted text that is not a sentence of the grammar: res={A.get('res')} (reference recogniser acc=0)")
         if "P" in (A.get("eval") or "") or "panic" in (A.get("res") or "") or "P" in (A.get("bolt") or ""):
             prop.append("panic during parsing/evaluation: res=%s eval=%s bolt=%s" % (A.get("res"), A.get("eval"), A.get("bolt")))
         for k in ("res", "typed", "eval"):
